@@ -2,3 +2,46 @@
 From Coq Require Import List NArith ZArith Bool.
 From PyD Require Import Base.Str Model.Tdl Proofs.TdlP.
 Import ListNotations.
+
+(* parsing the tokens the formatter prints for any term tree (identifiers,
+   strings, regexes, coreferences, feature structures with dotted paths,
+   cons lists empty/open/closed/dotted, diff lists, docstrings anywhere,
+   conjunctions at any depth) returns that very tree, whatever follows *)
+Theorem C15_term_roundtrip : forall t, wf_term t ->
+  forall f rest, need t <= f -> p_term f (fmt_term t ++ rest) = Some (t, rest).
+Proof. exact term_ok. Qed.
+Print Assumptions C15_term_roundtrip.
+
+Theorem C15_conjunction_roundtrip : forall c, c <> [] -> Forall wf_term c ->
+  forall f rest, cneed c <= f -> hd_is k_amp rest = false -> p_conj f (fmt_conj c ++ rest) = Some (c, rest).
+Proof. exact conj_all_ok. Qed.
+Print Assumptions C15_conjunction_roundtrip.
+
+(* a whole file: type definitions, addenda (also docstring-only), lexical
+   rules with affix patterns, letter sets and wild cards, (nested)
+   environments, includes and comments are read back as exactly the
+   sequence of entities that was printed *)
+Theorem C15_file_roundtrip : forall evs envs f,
+  Forall wf_event evs -> env_run evs envs <> None -> eneed evs <= f ->
+  p_events f (flat_map fmt_event evs) envs = Some evs.
+Proof. exact events_ok. Qed.
+Print Assumptions C15_file_roundtrip.
+
+(* letter sets / wild cards: the characters survive escaping *)
+Theorem C15_letter_set_roundtrip : forall l v cs, v <> 10%N -> cs <> [] -> plain_chars cs ->
+  parse_morph (fmt_morph l v cs) = Some (l, v, cs).
+Proof. exact parse_fmt_morph. Qed.
+Print Assumptions C15_letter_set_roundtrip.
+
+(* affix patterns are split back into match and replacement *)
+Theorem C15_affix_pattern_roundtrip : forall p, pat_ok p -> split_pat (pat_text p) = Some p.
+Proof. exact split_pat_text. Qed.
+Print Assumptions C15_affix_pattern_roundtrip.
+
+(* non-vacuity *)
+Theorem C15_hypotheses_satisfiable :
+  wf_term ex_term /\ (Forall wf_event ex_events /\ env_run ex_events [] = Some []) /\
+  (p_events (eneed ex_events) (flat_map fmt_event ex_events) [] = Some ex_events /\
+   length (flat_map fmt_event ex_events) = 77%nat).
+Proof. exact ex_all. Qed.
+Print Assumptions C15_hypotheses_satisfiable.
